@@ -11,7 +11,7 @@ def unknownArgs (defs : List ArgDef) (mk : Name → Bytes) (p : Pos) : List Argu
     | none =>
       errAtS (mk a.name) (suggestListQuoted (str "Did you mean") a.name (defs.map (·.name))) p :: unknownArgs defs mk p rest
 
-def knownArgumentNamesStep (_ : Schema) (_ : QueryDoc) (e : Event) : List RErr :=
+def knownArgumentNamesStep (_ : SV) (_ : QueryDoc) (e : Event) : List RErr :=
   match e.p with
   | .field f (some parent) (some fd) =>
     unknownArgs fd.args
